@@ -91,6 +91,45 @@ BitStringLaws ==       \* (ph mentioned only to make this a state-level invarian
     /\ BitStrings(n)[1] = Null(n) /\ BitStrings(n)[2] = [i \in 1..n |-> IF i = 1 THEN 1 ELSE 0]
 
 ----------------------------------------------------------------------------
+(* extension round: laws over pairs (A, B) *)
+SignVecs(n) == [1..n -> {-1, 1}]
+NormLaws ==
+  /\ InfinityNorm(MAdd(A, B)) <= InfinityNorm(A) + InfinityNorm(B)
+  /\ InfinityNorm(MMul(A, B)) <= InfinityNorm(A) * InfinityNorm(B)
+  /\ InfinityNorm(MScale(-3, A)) = 3 * InfinityNorm(A)
+  /\ (InfinityNorm(A) = 0 <=> A = MScale(0, A))
+  \* operator norm w.r.t. the maximum norm: attained on a sign vector
+  /\ InfinityNorm(A) = MaxOfSet({MaxOfSet({Abs(MVec(A, sv)[i]) : i \in 1..Rows(A)}) : sv \in SignVecs(Cols(A))})
+DivModLaws ==
+  \A x \in {A[1][1], A[1][2], A[2][1], 5, -5, 7, -7}, y \in {B[1][1], B[1][2], 3, -3} :
+    y # 0 =>
+      /\ x = y * TruncDiv(x, y) + CMod(x, y)
+      /\ Abs(CMod(x, y)) < Abs(y) /\ (CMod(x, y) = 0 \/ (CMod(x, y) < 0) = (x < 0))
+      \* the code's formulation of ceil_div_signed agrees with "least integer not less than x / y"
+      /\ CeilDiv(x, y) = (IF CMod(x, y) # 0 /\ (x < 0) = (y < 0) THEN TruncDiv(x, y) + 1 ELSE TruncDiv(x, y))
+      /\ CeilDiv(x, y) * y * (IF y > 0 THEN 1 ELSE -1) >= x * (IF y > 0 THEN 1 ELSE -1)
+VectorOptLaws ==
+  LET v == A[1]
+      w == B[1]
+  IN /\ (VDiv(v, w) = <<>> <=> \E i \in 1..2 : w[i] = 0) /\ (VMod(v, w) = <<>> <=> VDiv(v, w) = <<>>)
+     /\ (VDiv(v, w) # <<>> => VAdd(VMul(w, VDiv(v, w)[1]), VMod(v, w)[1]) = v)
+     /\ VDivScalar(v, 0) = <<>> /\ VModScalar(v, 0) = <<>> /\ VCeilDivSigned(v, 0) = <<>>
+     /\ VDivScalar(v, 1) = <<v>> /\ VCeilDivSigned(v, 1) = <<v>> /\ VCeilDivSigned(v, -1) = <<VNeg(v)>>
+     /\ MVec(A, Unit(2, 0)) = <<A[1][1], A[2][1]>> /\ MVec(A, Unit(2, 1)) = <<A[1][2], A[2][2]>>
+     /\ Dot(Unit(3, 1), Unit(3, 1)) = 1 /\ Dot(Unit(3, 0), Unit(3, 2)) = 0
+     /\ (IsQuadratic(v) <=> v[1] = v[2]) /\ IsQuadratic(Unit(1, 0))
+Sorted2(r) == IF r[1] <= r[2] THEN r ELSE <<r[2], r[1]>>
+IntervalLaws ==
+  LET x == Sorted2(A[1])
+      y == Sorted2(B[1])
+      D == IntervalDistanceAllowed(x, y)
+  IN /\ D = IntervalDistanceAllowed(y, x)                                   \* symmetric
+     /\ D # {} /\ Cardinality(D) <= 2
+     /\ (x[2] < y[1] => D = {y[1] - x[2]})                                  \* disjoint: the gap
+     /\ (x[2] = y[1] /\ x[1] < x[2] /\ y[1] < y[2] => D = {0})              \* touching from outside
+     /\ (\E d \in D : d > 0) => (x[2] < y[1] \/ y[2] < x[1])
+
+----------------------------------------------------------------------------
 (* defective definitions for the vacuity guards *)
 DetRowMod3(M) ==       \* DESIGN 7: sign by Row % 3 (0-based row)
   IF Rows(M) = 1 THEN M[1][1]
@@ -105,5 +144,9 @@ MAddAsSub(M, N) == MMap2(LAMBDA x, y : x - y, M, N)
 MVecColumns(M, v) == [i \in 1..Rows(M) |-> Sum(LAMBDA k : M[k][i] * v[k], Cols(M))]
 IdentityOnes(n) == MInit(n, n, LAMBDA i, j : 1)
 TransposeRotate(M) == MInit(Cols(M), Rows(M), LAMBDA i, j : M[Rows(M) + 1 - j][i])
+CModFloor(a, b) == a - b * (IF b > 0 THEN a \div b ELSE (-a) \div (-b))      \* floored instead of truncated
+InfinityNormColumns(M) == MaxOfSet({Sum(LAMBDA i : Abs(M[i][j]), Rows(M)) : j \in 1..Cols(M)})   \* the 1-norm
+UnitOneBased(n, axis) == [i \in 1..n |-> IF i = axis THEN 1 ELSE 0]
+IvOverlapRuleMinMax(x, y) == (IF x[1] < y[1] THEN x[1] ELSE y[1]) - (IF x[2] < y[2] THEN y[2] ELSE x[2])
 BitStringsReversed(n) == [k \in 1..Pow2(n) |-> [i \in 1..n |-> ((k - 1) \div Pow2(n - i)) % 2]]
 =============================================================================
